@@ -94,6 +94,10 @@ pub fn run_bisync(
     let host = host_id();
     // Start from the trusted base and mutate to the new common state as we apply.
     let mut common = base;
+    // A path gone from both sides is gone from the common state too. Keeping
+    // its entry made a later re-creation with the old content on one side look
+    // like "unchanged here, deleted there" and the new file was removed.
+    common.retain(|p, _| a.contains_key(p) || b.contains_key(p));
     let mut conflict_paths: Vec<PathBuf> = Vec::new();
     for (path, act) in &plan {
         apply(
